@@ -6,6 +6,7 @@ import (
 	"encoding/hex"
 	"encoding/json"
 	"fmt"
+	"io"
 	"runtime"
 	"sync"
 	"sync/atomic"
@@ -66,6 +67,20 @@ func checkWriteCase(c writeCase) (string, bool) {
 	h2.Write(withCRC)
 	if h2.Sum16() != 0 {
 		return fmt.Sprintf("residue (streamed): %#04x, want 0", h2.Sum16()), false
+	}
+	// Fed as an io.Writer by io.Copy (which prefers a ReadFrom method of the
+	// destination when there is one) from readers that hand the data over in
+	// the ways the io.Reader contract allows: in pieces, one byte at a time,
+	// and with the last piece delivered together with io.EOF.
+	for mode := 0; mode < 4; mode++ {
+		h4 := dyncrc16.New()
+		n, err := io.Copy(h4, &feedReader{data: data, mode: mode, cuts: c.Cuts})
+		if err != nil || n != int64(len(data)) {
+			return fmt.Sprintf("io.Copy into the hash (reader mode %d) returned (%d, %v) for %d bytes", mode, n, err, len(data)), false
+		}
+		if got := h4.Sum16(); got != want {
+			return fmt.Sprintf("io.Copy into the hash from a reader of mode %d (0 whole, 1 pieces, 2 single bytes, 3 last piece with io.EOF) gives %#04x, a single Write %#04x", mode, got, want), false
+		}
 	}
 	// Reset after an arbitrary prefix returns to the initial state.
 	p := c.Reset
@@ -138,6 +153,42 @@ func checkBigCase(c bigCase) (string, bool) {
 		return fmt.Sprintf("residue: %d bytes || sum written at once give %#04x, want 0", len(data), got), false
 	}
 	return "", true
+}
+
+// feedReader hands data to io.Copy: mode 0 as much as asked for, 1 in pieces
+// ending at the case's cut points, 2 one byte per call, 3 like 1 with the
+// last piece returned together with io.EOF.
+type feedReader struct {
+	data []byte
+	pos  int
+	mode int
+	cuts []int
+}
+
+func (r *feedReader) Read(p []byte) (int, error) {
+	if r.pos >= len(r.data) {
+		return 0, io.EOF
+	}
+	n := len(p)
+	switch r.mode {
+	case 1, 3:
+		for _, c := range r.cuts {
+			if c > r.pos && c-r.pos < n {
+				n = c - r.pos
+			}
+		}
+	case 2:
+		n = 1
+	}
+	if n > len(r.data)-r.pos {
+		n = len(r.data) - r.pos
+	}
+	copy(p, r.data[r.pos:r.pos+n])
+	r.pos += n
+	if r.mode == 3 && r.pos == len(r.data) {
+		return n, io.EOF
+	}
+	return n, nil
 }
 
 type transCase struct {
